@@ -77,21 +77,21 @@ def corr_cases(strength, rng):
     scr = G.screen(2, 2, [7, 7, 7, 9, 9, 5, 5, 5])
     # exhaustive sweep: every non-empty sub-complex as support_elements.  SNC shares _compute_rwg0_space_data with
     # RWG, so the quick tier sweeps it on a seeded third of the subsets only.
-    # Quick tier (5-minute budget): a seeded half of the octahedron's and a third of the screen's sub-complexes; the
+    # Quick tier (5-minute budget): a seeded third of the octahedron's and a quarter of the screen's sub-complexes; the
     # thorough tier sweeps all 255 + 255.
     for name, grid in (("octahedron", octa), ("screen2x2", scr)):
         subs = subsets(grid.number_of_elements)
         part = lambda frac: subs if thorough else [subs[i] for i in sorted(rng.choice(len(subs), int(len(subs) * frac), replace=False))]
-        add_group(name + "/all-subcomplexes", grid, part(0.5) if name == "octahedron" else part(1.0 / 3), ["P1", "RWG"])
-        add_group(name + "/subcomplexes-dp-snc", grid, part(1.0 / 6), ["DP0", "DP1", "SNC"])
+        add_group(name + "/all-subcomplexes", grid, part(1.0 / 3) if name == "octahedron" else part(1.0 / 4), ["P1", "RWG"])
+        add_group(name + "/subcomplexes-dp-snc", grid, part(1.0 / 8), ["DP0", "DP1", "SNC"])
     # segments of multi-domain grids (including non-contiguous indices and an absent index), whole grid, swapped normals
     for name, grid, doms in (("octahedron", octa, [0, 1, 2, 5]), ("screen2x2", scr, [5, 7, 9]),
                              ("two-components", G.two_components(), [0, 3]), ("cube12", G.cube12([1, 1, 2, 2, 3, 3, 4, 4, 6, 6, 8, 8]), [1, 2, 3, 4, 6, 8]),
                              ("torus3x3", G.torus(), [0, 1, 2])):
         sels = [(None, None)]
         segsets = [list(c) for r in range(1, len(doms) + 1) for c in itertools.combinations(doms, r)]
-        if len(segsets) > 6 and not thorough:
-            segsets = [segsets[i] for i in sorted(rng.choice(len(segsets), 6, replace=False))]
+        if len(segsets) > 4 and not thorough:
+            segsets = [segsets[i] for i in sorted(rng.choice(len(segsets), 4, replace=False))]
         sels += [(None, s) for s in segsets] + [(None, [doms[0], 77])]
         add_group(name + "/segments", grid, sels, allk,
                   swapped_list=(None, [doms[0]], doms[-2:]) if thorough else (None, doms[-2:]))
@@ -283,6 +283,154 @@ class Checker:
         return sp
 
 
+def _pt_key(p):
+    return tuple(int(round(float(x) * 1e9)) for x in p)
+
+
+def check_dual(ck, grid, t, gname, segs, incl, trunc):
+    """DUAL0 / DUAL1 on the barycentric refinement, evaluated on the implementation through the dof_transformation
+    (rows = local dofs of the barycentric space, columns = coarse dofs):
+    DUAL0: one dof per dof-carrying vertex of the P1 space with the same options; basis function d is exactly the indicator
+           of the barycentric cells of the support that touch ITS vertex; functions never overlap (row sums <= 1), sum to
+           one on a whole closed grid, vanish on cells touching no dof-carrying vertex.
+    DUAL1: one dof per support element e; non-zero nodal values only at points of the closed triangle e: 1 at its
+           barycentre, 1/2 at its edge midpoints, in (0,1] at its vertices; nodal sums <= 1, = 1 on a whole closed grid.
+    Both: local2global / global2local of the barycentric space behind them are coherent (arange over the support)."""
+    n = grid.number_of_elements
+    bary = grid.barycentric_refinement
+    bv, be = bary.vertices, bary.elements
+    closed_whole = segs is None and not any(t["vob"])
+    desc = {"grid": gname, "kind": "DUAL", "segments": segs, "include_boundary_dofs": incl, "truncate_at_segment_edge": trunc,
+            "grid_arrays": {"vertices": t["vertices"], "elements": t["elems"], "domain_indices": t["dom"]}}
+    kw = {} if segs is None else {"segments": list(segs)}
+
+    def coherent(sp, kind):
+        k = sp.local2global.shape[1]
+        sup = np.flatnonzero(sp.support)
+        want_rows = np.arange(k * len(sup)).reshape(len(sup), k)
+        if not np.array_equal(sp.local2global[sup], want_rows) or not np.all(sp.local_multipliers[sup] == 1):
+            ck.fail("C09:%s-barycentric-dofmap" % kind, "local2global of the barycentric space is not arange over its support",
+                    dict(desc, kind=kind))
+        want = {}
+        for c in sup:
+            for i in range(k):
+                want[int(sp.local2global[c, i])] = [(int(c), i)]
+        got = {d: [(int(a), int(b)) for a, b in row] for d, row in enumerate(sp.global2local) if len(row)}
+        if got != want:
+            ck.fail("C09:global2local-not-inverse:%s" % kind,
+                    "global2local of the barycentric space is not the inverse of its local2global", dict(desc, kind=kind))
+        if sp.dof_transformation.shape[0] != k * len(sup):
+            ck.fail("C09:%s-barycentric-dofmap" % kind, "dof_transformation has %d rows for %d barycentric local dofs"
+                    % (sp.dof_transformation.shape[0], k * len(sup)), dict(desc, kind=kind))
+
+    # ---------------- DUAL0
+    p1 = bempp_cl.api.function_space(grid, "P", 1, include_boundary_dofs=incl, truncate_at_segment_edge=trunc, **kw)
+    d0 = bempp_cl.api.function_space(grid, "DUAL", 0, include_boundary_dofs=incl, truncate_at_segment_edge=trunc, **kw)
+    ck.evals += 1
+    coherent(d0, "DUAL0")
+    vertex_of, faces_of = {}, {}
+    for e in p1.support_elements:
+        for k in range(3):
+            if p1.local_multipliers[e, k] != 0:
+                d = int(p1.local2global[e, k])
+                vertex_of[d] = int(grid.elements[k, e])
+                faces_of.setdefault(d, []).append(int(e))
+    if vertex_of:
+        if d0.global_dof_count != p1.global_dof_count:
+            ck.fail("C09:dual0-dof-count", "DUAL0 has %d dofs, the P1 space with the same options %d"
+                    % (d0.global_dof_count, p1.global_dof_count), desc)
+        else:
+            T = d0.dof_transformation.tocsc()
+            cell_of_row = {int(d0.local2global[c, 0]): int(c) for c in np.flatnonzero(d0.support)}
+            bad = 0
+            for d in range(d0.global_dof_count):
+                key = _pt_key(grid.vertices[:, vertex_of[d]])
+                expected = set()
+                for f in faces_of[d]:
+                    for j in range(6):
+                        c = 6 * f + j
+                        if d0.support[c] and any(_pt_key(bv[:, be[i, c]]) == key for i in range(3)):
+                            expected.add(c)
+                col = T.getcol(d).tocoo()
+                got = {}
+                for r, val in zip(col.row, col.data):
+                    got[cell_of_row[int(r)]] = got.get(cell_of_row[int(r)], 0.0) + float(val)
+                got = {c: v for c, v in got.items() if v != 0}
+                ck.evals += 1
+                if set(got) != expected or any(abs(v - 1.0) > 1e-14 for v in got.values()):
+                    stray = sorted(set(got) - expected)[:4]
+                    bad += 1
+                    if bad <= 1:
+                        ck.fail("C09:dual0-attachment",
+                                "DUAL0 basis function %d is not the indicator of the barycentric cells around its vertex %d "
+                                "(non-zero on %d cells that do not touch it, missing %d)" % (
+                                    d, vertex_of[d], len(set(got) - expected), len(expected - set(got))),
+                                dict(desc, dof=d, vertex=vertex_of[d], stray_barycentric_cells=stray))
+            rows = np.asarray(abs(d0.dof_transformation).sum(axis=1)).ravel()
+            if np.any(rows > 1 + 1e-13):
+                ck.fail("C09:dual0-sum", "DUAL0 basis functions overlap (sum %.3f on a barycentric cell)" % rows.max(), desc)
+            if closed_whole and np.any(np.abs(rows - 1) > 1e-13):
+                ck.fail("C09:dual0-sum", "DUAL0 basis does not sum to one on a whole closed grid", desc)
+    # ---------------- DUAL1
+    d1 = bempp_cl.api.function_space(grid, "DUAL", 1, truncate_at_segment_edge=trunc, **kw)
+    ck.evals += 1
+    coherent(d1, "DUAL1")
+    support0 = [True] * n if segs is None else [t["dom"][i] in segs for i in range(n)]
+    sel = [e for e in range(n) if support0[e]]
+    if d1.global_dof_count != len(sel):
+        ck.fail("C09:dual1-dof-count", "DUAL1 has %d dofs for %d selected elements" % (d1.global_dof_count, len(sel)), desc)
+        return
+    T = d1.dof_transformation.tocsc()
+    point_of_row = {}
+    for c in np.flatnonzero(d1.support):
+        for i in range(3):
+            point_of_row[int(d1.local2global[c, i])] = bv[:, be[i, c]]
+    bad = 0
+    for d, e in enumerate(sel):
+        P = [grid.vertices[:, v] for v in t["elems"][e]]
+        allowed = {_pt_key((P[0] + P[1] + P[2]) / 3): ("barycentre", 1.0)}
+        for a, b in ((0, 1), (1, 2), (2, 0)):
+            allowed[_pt_key((P[a] + P[b]) / 2)] = ("midpoint", 0.5)
+        for a in range(3):
+            allowed[_pt_key(P[a])] = ("vertex", None)
+        col = T.getcol(d).tocoo()
+        ck.evals += 1
+        for r, val in zip(col.row, col.data):
+            if val == 0:
+                continue
+            kind_w = allowed.get(_pt_key(point_of_row[int(r)]))
+            ok = kind_w is not None and (abs(val - kind_w[1]) < 1e-14 if kind_w[1] is not None else 0 < val <= 1 + 1e-14)
+            if not ok:
+                bad += 1
+                if bad <= 1:
+                    ck.fail("C09:dual1-attachment",
+                            "DUAL1 basis function of element %d has nodal value %.4f at %s" % (
+                                e, val, "a point outside its element" if kind_w is None else "its " + kind_w[0]),
+                            dict(desc, dof=d, element=e))
+    rows = np.asarray(d1.dof_transformation.sum(axis=1)).ravel()
+    if np.any(rows > 1 + 1e-12):
+        ck.fail("C09:dual1-sum", "DUAL1 nodal values sum to %.4f > 1 at a barycentric node" % rows.max(), desc)
+    if closed_whole and np.any(np.abs(rows - 1) > 1e-12):
+        ck.fail("C09:dual1-sum", "DUAL1 basis does not sum to one on a whole closed grid (min %.4f, max %.4f)"
+                % (rows.min(), rows.max()), desc)
+
+
+def search_dual(ck, thorough, rng):
+    grids = [("octahedron", G.octahedron([0, 0, 1, 1, 2, 2, 5, 5])), ("screen3x3", G.screen(3, 3, [1] * 12 + [2] * 6)),
+             ("cube12", G.cube12([1, 1, 2, 2, 3, 3, 4, 4, 6, 6, 8, 8]))]
+    if thorough:
+        grids += [("torus3x3", G.torus()), ("tetrahedron", G.tetrahedron([0, 0, 1, 1])), ("screen2x2", G.screen(2, 2, [7, 7, 7, 9, 9, 5, 5, 5]))]
+    for gname, grid in grids:
+        t = G.tables(grid)
+        doms = sorted(set(t["dom"]))
+        segsets = [None] + [list(c) for r in range(1, len(doms)) for c in itertools.combinations(doms, r)]
+        if not thorough and len(segsets) > 4:
+            segsets = segsets[:1] + [segsets[i] for i in sorted(rng.choice(range(1, len(segsets)), 3, replace=False))]
+        for segs in segsets:
+            for incl, trunc in OPTS4:
+                check_dual(ck, grid, t, gname, segs, incl, trunc)
+
+
 def nonmanifold_grids():
     return [("fan", G.fan()), ("two-tets-glued", G.two_tets_glued()), ("t-junction", G.t_junction())]
 
@@ -342,6 +490,8 @@ def search(strength, rng, replay=None):
             for kind in ("P1", "RWG", "SNC"):
                 for incl, trunc in (OPTS4 if thorough else [(False, True), (True, False)]):
                     ck.check(grid, t, gname, kind, se=se, segs=segs, incl=incl, trunc=trunc, with_tables=True)
+    # -- DUAL0 / DUAL1 on closed grids, screens and segments x the four flag combinations
+    search_dual(ck, thorough, rng)
     # -- function_space rejects support_elements together with segments
     try:
         bempp_cl.api.function_space(G.octahedron(), "P", 1, support_elements=np.array([0], dtype="uint32"), segments=[0])
@@ -364,6 +514,9 @@ def check_cases(cases, rng):
         incl = c.get("incl", c.get("include_boundary_dofs"))
         trunc = c.get("trunc", c.get("truncate_at_segment_edge"))
         try:
+            if kind == "DUAL":
+                check_dual(ck, grid, t, c.get("grid", "case"), c.get("segs", c.get("segments")), incl, trunc)
+                continue
             ck.check(grid, t, c.get("grid", "case"), kind, se=c.get("se", c.get("support_elements")),
                      segs=c.get("segs", c.get("segments")), sw=c.get("swapped", c.get("swapped_normals")) or None,
                      incl=incl, trunc=trunc, with_tables=True)
